@@ -763,6 +763,20 @@ def one_case(ctx, case, newer, older, pairs, meta):
         fail("Newer().parse(bytes(Older().parse(bs))) != Newer().parse(bs): data changed by passing through the older schema")
     if unk_of(m2) != unk_of(direct):
         fail("unknown bytes seen by the newer reader changed by passing through the older schema")
+    # the older reader / writer behind a size-delimited stream (two frames, so that reading past the first one shows): the same
+    # message must come out of load(stream, SIZE_DELIMITED) as out of parse(bs), for both frames
+    if len(bs) < 4096:
+        import io
+        import betterproto as _bp
+        try:
+            stream = io.BytesIO((wiregen.enc_varint(len(bs)) + bs) * 2)
+            got = [bytes(O().load(stream, _bp.SIZE_DELIMITED)) for _ in range(2)]
+            ctx.count("evolution_via_delimited_stream")
+            if got != [b2, b2] or stream.read() != b"":
+                fail("the older reader behind a size-delimited stream (two frames) does not return the message parse() returns: "
+                     f"{[g.hex()[:80] for g in got]} vs {b2.hex()[:80]}")
+        except Exception as e:  # noqa
+            fail(f"the older reader's load(stream, SIZE_DELIMITED) raises {type(e).__name__}: {e} on two frames whose payload parse() accepts")
     if case.m is not None and case.m_ok and not case.kind.startswith("mismatch"):
         m = case.m
         # C01's part (sampled here because C08_evolution assumes it): direct == m when m is oneof-clean
